@@ -9,7 +9,7 @@
 (* concrete history that reaches the state and performs the operation.     *)
 (* The harness replays each line on a real container (model -> code).      *)
 (***************************************************************************)
-EXTENDS Dig, Json
+EXTENDS Viz, Json
 
 VARIABLE hist
 
@@ -17,7 +17,7 @@ Snap == [reg |-> reg, decs |-> decs, vals |-> vals, dvals |-> dvals, grps |-> gr
          dgrps |-> dgrps, called |-> called, dcalled |-> dcalled, created |-> created]
 
 Entry == [op |-> cur'.op, f |-> cur'.f, s |-> cur'.s, v |-> ret'.v, rf |-> ret'.f,
-          rn |-> ret'.n, mk |-> ret'.mk, log |-> log']
+          rn |-> ret'.n, mk |-> ret'.mk, vp |-> ret'.vp, log |-> log']
 
 GenInit == Init /\ hist = <<>>
 
@@ -25,7 +25,8 @@ GenNext ==
   /\ Next
   /\ IF ~cur'.active
      THEN /\ hist' = Append(hist, Entry)
-          /\ PrintT(ToJson([ci |-> ci, opt |-> opt, hist |-> hist', snap |-> Snap']))
+          /\ PrintT(ToJson([ci |-> ci, opt |-> opt, hist |-> hist', snap |-> Snap',
+                                 viz |-> Picture', vizerr |-> PictureErr(ret')]))
      ELSE hist' = hist
 
 GenSpec == GenInit /\ [][GenNext]_<<vars, hist>>
